@@ -293,7 +293,7 @@ func TestVerif_C31_Mutate(t *testing.T) {
 // first), the second drives the environment generator. The whole C31 oracle runs inside the body.
 func FuzzVerif_C31_Eval(f *testing.F) {
 	f.Fuzz(func(t *testing.T, program []byte, envBytes []byte) {
-		if len(program) > 8192 {
+		if len(program) > 8192 || len(envBytes) > 4096 {
 			t.Skip()
 		}
 		v := uint64(0)
